@@ -78,7 +78,10 @@ def run(ctx):
         timings[m.__name__.split(".")[-1]] = {"wall_s": round(time.time() - t0, 2), "evaluations": ctx.evaluations - ev0}
     ctx.rule = " || ".join(rules)
     ctx.exhaustive = False
+    # re-entrant: the framework may call run() again with further seeds (escalation)
+    ctx.extra.setdefault("parts_by_seed", {})[str(ctx.seed)] = timings
     ctx.extra["parts"] = timings
+    ctx.assumptions[:] = list(dict.fromkeys(ctx.assumptions))
     if MISSING:
         ctx.extra["missing_parts"] = sorted(set(MISSING))
         ctx.assumptions.append(f"tie modules not installed: {sorted(set(MISSING))}")
